@@ -289,3 +289,68 @@ pub fn gaps(ctx: &Ctx) -> Stats {
     st.set_extra("gap_lengths", Json::s("0..=140, 250..=260, 511..513, 1023..1025"));
     st
 }
+
+/// thorough only: single sequences longer than 2^31 and 2^32 bases (position / length arithmetic in narrower
+/// integer types).  One pass: first items against the reference on the prefix, total count against the
+/// analytic count, last items against the reference on the tail slice.
+pub fn gigabases(ctx: &Ctx) -> Stats {
+    let mut st = Stats::new();
+    let mut rng = Rng::keyed(ctx.seed, "c01.gigabases", 0);
+    let block: Vec<u8> = (0..1 << 20).map(|_| *rng.pick(b"ACGT")).collect();
+    for &len in &[(1usize << 31) + 1000, (1usize << 32) + 1000] {
+        if ctx.expired() {
+            st.truncated = true;
+            break;
+        }
+        let k = 21usize;
+        let mut seq: Vec<u8> = Vec::with_capacity(len);
+        while seq.len() < len {
+            let n = (len - seq.len()).min(block.len());
+            seq.extend_from_slice(&block[..n]);
+        }
+        let n_pos = [len / 2, len - 500];
+        for &p in &n_pos {
+            seq[p] = b'N';
+        }
+        let case = Json::obj().set("layout", Json::s(format!("{} bases: a random 1 MiB block repeated, N at {:?}", len, n_pos))).set("k", Json::u(k));
+        note_current_case(ctx, &case);
+        st.case(true, mix(len as u64));
+        // expected number of windows: clean segments [0, p1), (p1, p2), (p2, len)
+        let segs = [n_pos[0], n_pos[1] - n_pos[0] - 1, len - n_pos[1] - 1];
+        let expected: u64 = segs.iter().map(|&l| if l >= k { (l - k + 1) as u64 } else { 0 }).sum();
+        let r = guarded(|| {
+            let mut it = KmerGenerator::new(&seq, k);
+            let mut first: Vec<(u64, u64)> = Vec::new();
+            let mut last: std::collections::VecDeque<(u64, u64)> = std::collections::VecDeque::new();
+            let mut total = 0u64;
+            for item in &mut it {
+                total += 1;
+                if first.len() < 300 {
+                    first.push(item);
+                }
+                if last.len() == 300 {
+                    last.pop_front();
+                }
+                last.push_back(item);
+            }
+            (first, last, total)
+        });
+        match r {
+            Err(p) => st.violate(&panic_sig(&p), p, case.clone()),
+            Ok((first, last, total)) => {
+                let exp_first = model::kmer_pairs(&seq[..300 + k - 1], k);
+                let tail = model::kmer_pairs(&seq[len - 400..], k);
+                let exp_last: Vec<(u64, u64)> = tail[tail.len().saturating_sub(300)..].to_vec();
+                if total != expected {
+                    st.violate("kmer.window_count:gigabases", format!("iterator yielded {} items, {} valid windows exist ({} bases)", total, expected, len), case.clone());
+                } else if first != exp_first {
+                    st.violate("kmer.forward_code:gigabases", "the first 300 items differ from the reference".into(), case.clone());
+                } else if last.iter().copied().collect::<Vec<_>>() != exp_last {
+                    st.violate("kmer.forward_code:gigabases", "the last 300 items differ from the reference on the tail".into(), case.clone());
+                }
+            }
+        }
+        st.sample(case);
+    }
+    st
+}
